@@ -976,6 +976,11 @@ fn subruns(prop: &str, tier: Tier) -> u64 {
 
 const REF_STEP_CAP: u64 = 600_000;
 
+/// C05 only: scenario indices that abort `classgroup::classgroup` instead of `factor`.
+pub fn is_classgroup_abort_scenario(prop: &str, idx: u64) -> bool {
+    prop == "C05" && idx % 8 == 5
+}
+
 impl Family for FactorFamily {
     fn name(&self) -> &'static str {
         "factor"
@@ -1019,6 +1024,10 @@ impl Family for FactorFamily {
     }
 
     fn run(&self, prop: &str, tier: Tier, seed: u64, idx: u64) -> Report {
+        if is_classgroup_abort_scenario(prop, idx) {
+            // C05 is anchored in classgroup.rs too: one scenario in eight aborts classgroup()
+            return crate::scen::clsabort::run_c05(tier, seed, idx);
+        }
         let mut rep = Report::new(idx);
         let mut rng = Rng::new(derive(seed, prop, idx, "scenario"));
         let spec = gen_spec(&mut rng, prop, tier);
@@ -1349,6 +1358,9 @@ impl Family for FactorFamily {
     }
 
     fn describe(&self, prop: &str, tier: Tier, seed: u64, idx: u64) -> Value {
+        if is_classgroup_abort_scenario(prop, idx) {
+            return crate::scen::clsabort::ClsAbortFamily.describe(prop, tier, seed, idx);
+        }
         let mut rng = Rng::new(derive(seed, prop, idx, "scenario"));
         gen_spec(&mut rng, prop, tier).to_json()
     }
